@@ -379,19 +379,27 @@ def generate_macro_application(
     macro_code = macro_def.block
     macro_args = macro_def.args
     macro_args_values = node.args
+    caller_scope = resolver.current_scope
     resolver.append_scope()
     resolver.use_next_scope()
+    macro_scope = resolver.current_scope
     code.append(ScopeNode(resolver))
     for index, arg in enumerate(macro_args):
         value = macro_args_values[index]
         try:
             if isinstance(value, BlockAstNode):
-                resolver.current_scope.add_symbol(arg, value)
+                macro_scope.add_symbol(arg, value)
             else:
-                resolver.current_scope.add_symbol(arg, eval_expression(value, resolver))
+                # arguments are evaluated at the call site, parameters and macro locals must not capture them.
+                resolver.current_scope = caller_scope
+                try:
+                    argument_value = eval_expression(value, resolver)
+                finally:
+                    resolver.current_scope = macro_scope
+                macro_scope.add_symbol(arg, argument_value)
         except SymbolNotDefined:
             # defer the resolve to the emit part.
-            code.append(SymbolNode(arg, value, resolver))
+            code.append(SymbolNode(arg, value, resolver, evaluate_in_parent_scope=True))
     code += _code_gen(macro_code.body, resolver, macro_definitions)
     code.append(PopScopeNode(resolver))
     resolver.restore_scope()
